@@ -525,9 +525,33 @@ def r0610(ck, prog, cfg, rid):
             s_ = src_of_operand(f, o, through_calls=TRANSPARENT + (r"Clone>::clone$",))
             return ((s_.local, tuple(s_.fields)) if s_.kind in ("path", "call", "agg", "multi") and s_.local is not None else None), s_
         stored = {root(t["args"][2])[0] for _, t in stores} - {None}
+        def edited_copy(o):
+            """the operand is a clone held in a local that is written to (field store / &mut borrow) before it is shipped"""
+            cur = op_local(o)
+            for _ in range(6):
+                if cur is None:
+                    return None
+                for b_, i_, st_ in f.stmts():
+                    if st_["lhs"].get("l") == cur and st_["lhs"].get("p"):
+                        return "field store at line %s" % st_["ln"]
+                    if st_["rv"]["k"] == "ref" and st_["rv"].get("mut") and st_["rv"]["pl"].get("l") == cur:
+                        return "&mut borrow at line %s" % st_["ln"]
+                d_ = f.defs().get(cur, [])
+                if len(d_) == 1 and d_[0][2] == "assign" and d_[0][3]["k"] == "use" and "c" not in d_[0][3]["a"] and op_place(d_[0][3]["a"]) is not None \
+                        and not op_place(d_[0][3]["a"]).get("p"):
+                    cur = op_place(d_[0][3]["a"])["l"]
+                else:
+                    return None
+            return None
         for k, (b, t) in enumerate(news):
             n += 1
             r_, s_ = root(t["args"][1])
+            ed = edited_copy(t["args"][1])
+            if ed:
+                ck.bad(rid, "%s:delta-value#%d%s" % (f.short, k, _tag(cfg)),
+                       "the delta emitted by ShardReplicaState::%s carries a copy of the stored value that is modified before it is shipped (%s): peers, "
+                       "recovery and compaction treat every delta as the key's full state" % (f.short, ed), f.where(t["ln"]))
+                continue
             ck.check(r_ is not None and r_ in stored, rid, "%s:delta-value#%d%s" % (f.short, k, _tag(cfg)),
                      "the delta emitted by ShardReplicaState::%s carries %s, which is not (a clone of) the value it stores in replicated_keys (%s): "
                      "peers, recovery and compaction treat every delta as the key's full state" % (f.short, s_.path(), sorted(map(str, stored))),
